@@ -192,6 +192,9 @@ pub fn sample_set(rng: &mut Rng, p: &Params, shape: &Shape) -> SampleSet {
     let seg = p.segment_size;
     let k = p.k;
     let mut base: Vec<Vec<u8>> = Vec::new();
+    // (start, unit length, copies) of a tandem repeat planted in a base contig: later samples
+    // change the copy number, so the LZ matcher sees one k-mer at dozens of reference positions
+    let mut tandem: Vec<Option<(usize, usize, usize)>> = Vec::new();
     for _ in 0..nbase {
         let len = match if orphan_mode { 0 } else { rng.below(10) } {
             0 => rng.usize(1, k), // shorter than (or equal to) k
@@ -215,6 +218,17 @@ pub fn sample_set(rng: &mut Rng, p: &Params, shape: &Shape) -> SampleSet {
             let blk = c[a..a + l].to_vec();
             c[b..b + l].copy_from_slice(&blk);
         }
+        let mut t = None;
+        if len > 200 && !many && rng.chance(1, 5) {
+            let unit = rng.usize(3, 11);
+            let copies = rng.usize(20, 200).min((shape.max_contig_len.saturating_sub(c.len())) / unit.max(1)).max(2);
+            let u = random_bases(rng, unit);
+            let start = rng.usize(0, c.len());
+            let block: Vec<u8> = (0..unit * copies).map(|i| u[i % unit]).collect();
+            c.splice(start..start, block);
+            t = Some((start, unit, copies));
+        }
+        tandem.push(t);
         base.push(c);
     }
     let mut samples = Vec::new();
@@ -256,6 +270,17 @@ pub fn sample_set(rng: &mut Rng, p: &Params, shape: &Shape) -> SampleSet {
                 // unrelated tiny contigs: distinct entries (identical ones would be de-duplicated)
                 let l = rng.usize(1, k.saturating_sub(1).max(1));
                 random_bases(rng, l)
+            } else if let (Some((start, unit, copies)), true) = (tandem[bi], rng.chance(2, 3)) {
+                // change the copy number of the tandem repeat, then mutate as usual
+                let delta = rng.range(0, 24) as i64 - 8;
+                let newc = (copies as i64 + delta).max(1) as usize;
+                let b = &base[bi];
+                let mut v = b[..start].to_vec();
+                for i in 0..unit * newc {
+                    v.push(b[start + i % unit]);
+                }
+                v.extend_from_slice(&b[start + unit * copies..]);
+                derive_contig(rng, &v, div.min(10), shape.iupac)
             } else {
                 derive_contig(rng, &base[bi], div, shape.iupac)
             };
